@@ -2,6 +2,9 @@
    (used by Props/C04) -/
 import DeepModel.Proofs.Limiter
 import DeepModel.Model.LimiterTimed
+import DeepModel.Proofs.LimiterConc
+
+set_option linter.unusedSimpArgs false
 
 namespace Limiter
 open Extracted.Limiter
@@ -213,5 +216,91 @@ theorem ConcT.checked_from (c : Cfg) (H : List Hit) : ∀ (sched : List Nat) (s 
         | done => exact ⟨hc, ht⟩
     have := ih (s.stepThr c i) key.1 key.2
     simpa [ConcT.run] using this
+
+/-! ### the serial schedules of `Proofs/LimiterConc` are inside the discipline -/
+
+theorem ConcT.mutexOk_cons (c : Cfg) (s : ConcT) (i : Nat) (is : List Nat) :
+    ConcT.mutexOk c s (i :: is) =
+      ((match s.thrs[i]? with
+        | some t => t.pc != .check || s.free
+        | none => true) && ConcT.mutexOk c (s.stepThr c i) is) := rfl
+
+/-- one thread's block from a state with nobody inside check…record: allowed, and nobody inside afterwards -/
+theorem ConcT.block_free (c : Cfg) (s : ConcT) (i : Nat) (hf : s.free = true) :
+    (ConcT.run c s [i, i, i]).free = true ∧
+    ∀ rest, ConcT.mutexOk c s (i :: i :: i :: rest) = ConcT.mutexOk c (ConcT.run c s [i, i, i]) rest := by
+  have hfree := (ConcT.free_iff s).mp hf
+  cases hti : s.thrs[i]? with
+  | none =>
+    have e : s.stepThr c i = s := by simp [ConcT.stepThr, hti]
+    refine ⟨by simp [ConcT.run, e, hf], ?_⟩
+    intro rest
+    simp [ConcT.mutexOk_cons, ConcT.run, e, hti]
+  | some t =>
+    obtain ⟨pc, ts, cd⟩ := t
+    have hlt := lt_of_getElem? hti
+    have hpc := hfree i _ hti
+    cases pc with
+    | proc => simp [Pc.inCrit] at hpc
+    | record => simp [Pc.inCrit] at hpc
+    | done =>
+      have e : s.stepThr c i = s := by simp [ConcT.stepThr, hti]
+      refine ⟨by simp [ConcT.run, e, hf], ?_⟩
+      intro rest
+      simp [ConcT.mutexOk_cons, ConcT.run, e, hti]
+    | check =>
+      have quiet : ∀ (a : ThrT), a.pc.inCrit = false →
+          ∀ (j : Nat) (t : ThrT), (s.thrs.set i a)[j]? = some t → t.pc.inCrit = false := by
+        intro a ha j t hj
+        by_cases hji : j = i
+        · subst hji
+          rw [List.getElem?_set_self hlt] at hj
+          cases hj; exact ha
+        · rw [List.getElem?_set_ne (Ne.symm hji)] at hj
+          exact hfree j t hj
+      cases ha : (allowed c s.st ts && cd) with
+      | true =>
+        constructor
+        · apply (ConcT.free_iff _).mpr
+          simp only [ConcT.run, List.foldl_cons, List.foldl_nil, ConcT.stepThr, hti, ha, if_true,
+            List.getElem?_set_self hlt, List.set_set, List.length_set]
+          exact quiet ⟨.done, ts, cd⟩ rfl
+        · intro rest
+          have h1 : (Pc.proc != Pc.check) = true := by decide
+          have h2 : (Pc.record != Pc.check) = true := by decide
+          simp [ConcT.mutexOk_cons, ConcT.run, ConcT.stepThr, hti, ha, hf, List.getElem?_set_self hlt,
+            List.set_set, h1, h2]
+      | false =>
+        constructor
+        · apply (ConcT.free_iff _).mpr
+          simp only [ConcT.run, List.foldl_cons, List.foldl_nil, ConcT.stepThr, hti, ha, Bool.false_eq_true, if_false,
+            List.getElem?_set_self hlt, List.set_set, List.length_set]
+          exact quiet ⟨.done, ts, cd⟩ rfl
+        · intro rest
+          have h3 : (Pc.done != Pc.check) = true := by decide
+          simp [ConcT.mutexOk_cons, ConcT.run, ConcT.stepThr, hti, ha, hf, List.getElem?_set_self hlt,
+            List.set_set, h3]
+
+theorem ConcT.serial_mutexOk (c : Cfg) : ∀ (order : List Nat) (s : ConcT), s.free = true →
+    ConcT.mutexOk c s (serialSched order) = true ∧ (ConcT.run c s (serialSched order)).free = true := by
+  intro order
+  induction order with
+  | nil => intro s hf; exact ⟨rfl, by simpa [serialSched, ConcT.run] using hf⟩
+  | cons i rest ih =>
+    intro s hf
+    obtain ⟨h1, h2⟩ := ConcT.block_free c s i hf
+    obtain ⟨h3, h4⟩ := ih _ h1
+    refine ⟨by simp only [serialSched]; rw [h2]; exact h3, ?_⟩
+    have : ConcT.run c s (serialSched (i :: rest)) = ConcT.run c (ConcT.run c s [i, i, i]) (serialSched rest) := by
+      simp [serialSched, ConcT.run]
+    rw [this]; exact h4
+
+theorem ConcT.init_free (hs : List Hit) : (ConcT.init hs).free = true := by
+  apply (ConcT.free_iff _).mpr
+  intro j t hj
+  simp only [ConcT.init, List.getElem?_map] at hj
+  cases hh : hs[j]? with
+  | none => simp [hh] at hj
+  | some h => simp [hh] at hj; subst hj; rfl
 
 end Limiter
